@@ -1,3 +1,4 @@
 //! Shared fixtures and independent references for the checks.
 pub mod fixtures;
+pub mod records;
 pub mod reference;
